@@ -84,6 +84,7 @@ def run(ck):
     regex_rule(ck, env)
     rec = recursion_rule(ck, env)
     acc = accumulation_rule(ck, env)
+    rawp = raw_pointer_rule(ck, env)
     if counts.get("alloc", 0) < MIN_ALLOC:
         if acc:
             # numbers are parsed by hand: the taint source of C14-O1 (the toInt family) is gone, so O1 has nothing to say
@@ -295,3 +296,67 @@ def accumulation_rule(ck, env):
         ck.ob("C14-O6", "(analysed functions)", True, "no multiplicative accumulation of a signed integer inside a loop in the %d analysed functions (numbers are parsed with the toInt family, which reports overflow)" % len(scope),
               key="accumulate|none")
     return found
+
+
+CHAR_ELEMS = ("char", "unsigned char", "signed char", "QChar", "unsigned short", "char16_t", "wchar_t", "uchar", "ushort", "char32_t", "unsigned int", "uint")
+NO_EXTENT_GUARDS = ("strncmp", "qstrncmp", "qstrnicmp", "strncasecmp", "strnicmp", "memcmp")
+
+
+def _is_chptr(t):
+    t = (t or "").strip()
+    if not t.endswith("*"):
+        return False
+    return t[:-1].replace("const", "").strip() in CHAR_ELEMS
+
+
+def raw_pointer_rule(ck, env):
+    """C14-O7: the access rule (O4) knows containers and arrays of known extent.  Stepping through text with a raw character pointer
+    (p + n, ++p, p[n], *p) has no extent the analysis can see, so every such site is an obligation of its own: undecided in general,
+    violated when the only thing standing between the pointer and the end of its buffer is a strncmp-family comparison — those stop
+    at the first NUL of *either* argument and therefore do not show that the text is as long as the count."""
+    F = ck.facts
+    ck.rule("C14-O7", "no raw character-pointer arithmetic or dereference (p + n, p - n, ++p, p[n], *p on char/QChar/ushort pointers) in the analysed functions whose extent is not established; "
+                      "a strncmp/qstrncmp/memcmp guard does not establish that the text has n characters")
+    scope = set(env.scope)
+    sites = 0
+    for f in sorted((x for x in F.fns.values() if x.sig in scope and x.body is not None), key=lambda x: (x.file, x.line, x.sig)):
+        tname = f.name.split("::")[-1]
+        for n in f.all_nodes():
+            k = n.get("k")
+            ptr, off, kind = None, None, None
+            if k == "unop" and n.get("op") in ("*", "++", "--") and isinstance(n.get("e"), dict) and _is_chptr(n["e"].get("type")):
+                ptr, kind = n["e"], "dereference" if n["op"] == "*" else "step"
+            elif k == "binop" and n.get("op") in ("+", "-", "+=", "-=") and isinstance(n.get("lhs"), dict) and isinstance(n.get("rhs"), dict):
+                if _is_chptr(n["lhs"].get("type")) and not _is_chptr(n["rhs"].get("type")):
+                    ptr, off, kind = n["lhs"], n["rhs"], "offset"
+                elif _is_chptr(n["rhs"].get("type")) and not _is_chptr(n["lhs"].get("type")) and n["op"] == "+":
+                    ptr, off, kind = n["rhs"], n["lhs"], "offset"
+            elif k == "subscript" and isinstance(n.get("base"), dict) and _is_chptr(skip_copies(n["base"]).get("type")) and not re.search(r"\[\d+\]", skip_copies(n["base"]).get("type") or ""):
+                ptr, off, kind = n["base"], n.get("idx"), "subscript"
+            if ptr is None:
+                continue
+            sites += 1
+            verdict, why = None, "the analysis has no extent for the text %s points into" % describe(ptr)[:40]
+            if kind in ("offset", "subscript") and off is not None:
+                o = skip_copies(deref_local(f, off))
+                # offset = size of another container, and the only relation between the two is a bounded comparison
+                if is_call(o, ("size", "length", "count")) and isinstance(o.get("obj"), dict):
+                    other = skip_copies(o["obj"])
+                    pdecl = skip_copies(deref_local(f, ptr)).get("decl") or skip_copies(ptr).get("decl")
+                    guards = [c for c in f.calls() if (c.get("callee") or "").split("::")[-1] in NO_EXTENT_GUARDS and len(c.get("args", [])) >= 3
+                              and any(skip_copies(a).get("decl") == skip_copies(ptr).get("decl") for a in c["args"][:2] if isinstance(a, dict))
+                              and describe(skip_copies(deref_local(f, c["args"][2]))) == describe(o)]
+                    lens = [c for c in f.calls() if (c.get("callee") or "").split("::")[-1] in ("strlen", "qstrlen", "strnlen", "qstrnlen") and c.get("args")
+                            and skip_copies(c["args"][0]).get("decl") == skip_copies(ptr).get("decl")]
+                    arbitrary = other.get("k") == "member" or (other.get("k") == "ref" and other.get("dk") in ("param", "field"))
+                    if guards and not lens and arbitrary:
+                        g0 = guards[0]
+                        verdict = False
+                        why = ("%s is advanced by %s after %s(...) == 0, which stops at the first NUL of either argument: when %s contains a NUL at position k and the text equals its first k bytes, "
+                               "the comparison succeeds and the pointer lands %s - k - 1 bytes behind the text's terminator" %
+                               (describe(ptr)[:30], describe(o)[:40], (g0.get("callee") or "").split("::")[-1], describe(other)[:30], describe(o)[:40]))
+            ck.ob("C14-O7", sitestr(f, n), verdict, "%s: %s %s: %s" % (tname, kind, describe(n)[:50], why), key="rawptr|%s|%s" % (tname, kind))
+    if not sites:
+        ck.ob("C14-O7", "(analysed functions)", True, "no raw character-pointer arithmetic or dereference in the %d analysed functions: text is handled through QString/QByteArray, whose accesses O4 proves" % len(scope),
+              key="rawptr|none")
+    return sites
